@@ -2,7 +2,7 @@
    checked by checks/part_C10_image.py).  Only statements here; proofs are in LimitProofs.v, Invariant.v. *)
 From Coq Require Import List ZArith NArith Bool Permutation.
 From Scalibr Require Import Walk.Model Walk.Spec Walk.Sched Walk.Invariant Walk.Faults Walk.FaultProofs
-  Walk.LimitProofs Walk.Witness Walk.Cases.
+  Walk.LimitProofs Walk.PathsProofs Walk.Witness Walk.Cases.
 Import ListNotations.
 
 (* never more inodes processed than the limit -- any trees, roots, faults, options *)
@@ -28,6 +28,17 @@ Theorem size_bound : forall c t e p,
   exists n k sz d ff, In (p, File n k sz d ff) (nodes_of [DOT] t) /\ ((0 < c_max_size c)%Z -> (sz <= c_max_size c)%Z).
 Proof. exact size_bound_lemma. Qed.
 Print Assumptions size_bound.
+
+(* ... with several roots: the Extract calls of a whole-tree Run split into one block per root, in order, and every
+   call of a block is on a file of THAT root whose size is within the limit (the size check looks at the root being
+   walked, not at a file of the same relative path elsewhere) *)
+Theorem size_bound_per_root : forall c, c_paths c = [] -> forall roots st inv sts,
+  exists css, calls (s_events (rres_state (run_roots c roots st inv sts))) = calls (s_events st) ++ concat css /\
+              (length css <= length roots)%nat /\
+              forall i cs t, nth_error css i = Some cs -> nth_error roots i = Some t ->
+                             forall ep, In ep cs -> call_within_limit c t ep.
+Proof. exact size_bound_per_root_lemma. Qed.
+Print Assumptions size_bound_per_root.
 
 (* context cancelled by the k-th visit hook (k = 0: before the scan): every Extract call happens while fewer
    than k inodes have been visited -- no extraction starts on any file visited from the k-th on *)
